@@ -452,6 +452,14 @@ impl<'a> Exec<'a> {
                 all_ids.push(id);
             }
         }
+        // files that are no quarantined blobs may sit in the corrupted dir (an index file saved by an operator, notes):
+        // they are neither counted nor do they reserve ids
+        let cdir = self.dir.join("corrupted");
+        if cdir.is_dir() {
+            let _ = std::fs::write(cdir.join(format!("{}.999.index", sut::PREFIX)), b"not a blob");
+            let _ = std::fs::write(cdir.join("notes.2023.txt"), b"not a blob");
+            self.labels.insert("foreign_files_in_corrupted_dir");
+        }
         self.open(lazy).await?;
         for id in &expect_quarantined {
             if sut::blob_path(&self.dir, *id).exists() && !self.cfg.ignore_corrupted {
@@ -603,6 +611,18 @@ impl<'a> Exec<'a> {
         }
         if !self.s().check_filter(&kb).await {
             return self.fail("check_filter/false-negative", format!("key {} is stored but BloomProvider::check_filter says NotContains", key));
+        }
+        // the overall filter of the storage (None when it cannot be built, e.g. off-loaded parts) must cover every blob
+        let (present, denies, fast_denies) = self.s().overall_filter(&kb).await;
+        self.stats.queries += 2;
+        if present {
+            self.labels.insert("overall_filter_present");
+        }
+        if denies {
+            return self.fail("get_filter/false-negative", format!("key {} is stored but the filter returned by BloomProvider::get_filter says NotContains", key));
+        }
+        if fast_denies {
+            return self.fail("check_filter_fast/false-negative", format!("key {} is stored but BloomProvider::check_filter_fast says NotContains", key));
         }
         Ok(())
     }
